@@ -465,6 +465,7 @@ class FnPrinter:
         return '((void)0)'
     def ex_LambdaExpr(self, n):
         return self.tr.lambda_expr(self, n)
+    def ex_CXXFunctionalCastExpr_lambda(self, n): return self.ex(n['inner'][0])
     def ex_CXXThrowExpr(self, n):
         return self.tr.throw_expr(self, n)
     def ex_UnaryExprOrTypeTraitExpr(self, n):
@@ -718,10 +719,17 @@ class FnPrinter:
         idx, nslices = sl
         out.append(self.ind() + '{'); self.indent += 1
         group = -1; keep = True
+        def first_label(s):
+            if s.get('kind') == 'DefaultStmt': return 'default'
+            xi = [k for k in s.get('inner', []) if k]
+            try: return self.ex(xi[0])
+            except Exception: return '?'
         for s in body.get('inner', []):
             if s.get('kind') in ('CaseStmt', 'DefaultStmt'):
                 group += 1
-                keep = (group % nslices) == idx
+                if idx == 'only': keep = nslices in first_label(s)
+                elif idx == 'except': keep = nslices not in first_label(s)
+                else: keep = (group % nslices) == idx
                 if keep:
                     self.stmt(s, out)
                 else:
